@@ -83,6 +83,8 @@ class CallMixin:
             yield from self.call_lambda(st, lam, fid, args)
         elif tag == 'listmeth':
             yield from B.call_listmeth(self, st, fv.data[0], fv.data[1], args, node, kwargs)
+        elif tag == 'dictmeth':
+            yield from B.call_dictmeth(self, st, fv.data[0], fv.data[1], args, node, kwargs)
         elif tag == 'exc':
             yield st, VExc(fv.data[0])
         elif tag == 'uf':
